@@ -72,6 +72,7 @@ type Query {
   need(x: Int!, y: Int): Int
   lst(xs: [Int!], m: [[Int]], ps: [P]): Int
   two(a: Int @darg, b: Int @darg, c: Int = 3 @darg): String
+  alist: [A]
 }
 
 type Mutation {
